@@ -308,6 +308,7 @@ func checkPoss(scen string, in PossIn) []*mc.Violation {
 	// the answer for this architecture, and the field itself, must be what they were
 	before := gen.CanonDep(d)
 	first := d.GetPossibilities(*arch)
+	firstAll, firstSub := d.GetAllPossibilities(), d.GetSubstvars()
 	if p, msg := mc.Guard(func() {
 		for _, other := range []string{"amd64", "i386", "armhf", "all"} {
 			if oa, err := dependency.ParseArch(other); err == nil && other != in.Arch {
@@ -318,6 +319,16 @@ func checkPoss(scen string, in PossIn) []*mc.Violation {
 		}
 	}); p {
 		return append(out, mc.V(scen, "selection-returns", in, "no panic", msg))
+	}
+	// answers a caller kept are the caller's: later questions do not rewrite them
+	if names(first) != strings.Join(wantSel, " ") || !same(first, wantSelP) {
+		out = append(out, mc.V(scen, "first-admitted-alternative", in, strings.Join(wantSel, " "), fmt.Sprintf("the answer obtained first reads, after the field was asked for other architectures: %s (%v)", names(first), first)))
+	}
+	if names(firstAll) != strings.Join(wantAll, " ") || !same(firstAll, wantAllP) {
+		out = append(out, mc.V(scen, "all-non-substvars", in, strings.Join(wantAll, " "), fmt.Sprintf("the answer obtained first reads, after later questions: %s (%v)", names(firstAll), firstAll)))
+	}
+	if names(firstSub) != strings.Join(wantSub, " ") || !same(firstSub, wantSubP) {
+		out = append(out, mc.V(scen, "substvars", in, strings.Join(wantSub, " "), fmt.Sprintf("the answer obtained first reads, after later questions: %s (%v)", names(firstSub), firstSub)))
 	}
 	if again := d.GetPossibilities(*arch); names(again) != names(first) || !same(again, wantSelP) {
 		out = append(out, mc.V(scen, "first-admitted-alternative", in, strings.Join(wantSel, " "), fmt.Sprintf("after the same field was asked for other architectures: %s (%v)", names(again), again)))
@@ -654,6 +665,13 @@ func Run(r *mc.Run) {
 
 	// 4: SatisfiedBy
 	ops := []string{"<<", "<=", "=", ">=", ">>", "", "<", ">", "==", "!=", "=>", "=<"}
+	// strings that are one of the five operators only after somebody tidies them (padding, a stray line end, a NUL,
+	// the opening parenthesis of the clause they were cut from), doubled or spelled as words: all unknown
+	for _, op := range []string{"<<", "<=", "=", ">=", ">>"} {
+		ops = append(ops, " "+op, op+" ", "\t"+op, op+"\n", op+"\r", op+"\x00", "("+op, op+op)
+	}
+	ops = append(ops, "lt", "le", "eq", "ge", "gt", "\u2265", "\u2264", "> =", "< <")
+	ops = gen.Dedup(ops)
 	asV := append(append([]string{}, validVersions...), zeroV)
 	// hand-built values no version string denotes, each also asked with N spelled exactly like its own rendering (which
 	// is then an unparsable number: never satisfied)
